@@ -163,6 +163,20 @@ Definition path_check_fx (fxs : fixes) (m : str) (stdio : bool) (f : facts) : ou
 
 Definition path_check := path_check_fx no_fixes.
 
+(* Path.__init__ from its first statement, for a spelling `given` (a str): `self._check_mode(mode)`, then
+   `if isinstance(path, str) and "\0" in path: raise PathError(...)` — before "-" is looked at and before any
+   question to the file system (os.stat / os.access would raise ValueError on such a string) —, then the checks. *)
+Definition has_nul (given : str) : bool := existsb (N.eqb 0) given.
+
+Definition path_init_fx (fxs : fixes) (m given : str) (f : facts) : outcome :=
+  if negb (check_mode m) then ValErr
+  else if has_nul given then PathErr
+  else path_check_fx fxs m (str_eqb given [45]%N) f.
+
+(* `_check_mode` starts with `if not isinstance(mode, str): raise ValueError(...)`: a mode that is not a string
+   (None, a number, a list of flags, bytes) is never looked into *)
+Definition path_init_nonstr_mode : outcome := ValErr.
+
 (* ---- absolute / relative bookkeeping (_util.py:547-573, local branch) ----------------------- *)
 Definition slash : N := 47.
 Definition tilde : N := 126.
